@@ -21,6 +21,8 @@ RULE = ("the C01 input space judged by the displacement clauses (outside-span by
 ASSUMPTIONS = c01.ASSUMPTIONS + ["kernel sweep: exact for integer exponents; affinity in (y, P) is checked on a basis "
                                  "plus 5 lattice combinations, not proved for all reals"]
 ANCHORS = {"match.py": [(247, 256), (264, 264), (334, 338)]}
+FORMS_HARNESSES = "all"
+FORMS_WIDTH = {"long-and-twin-intervals": 2}
 EXPLANATION = c01.EXPLANATION
 
 
